@@ -339,6 +339,16 @@ class Folder:
         if isinstance(e, (ast.ListComp, ast.SetComp, ast.GeneratorExp)):
             return self._comprehension(e, env, m)
         if isinstance(e, ast.DictComp):
+            pairs = self._comprehension(ast.copy_location(ast.ListComp(elt=ast.Tuple(elts=[e.key, e.value], ctx=ast.Load()), generators=e.generators), e), env, m)
+            if not isinstance(pairs, list):
+                return Unknown("dict comprehension")
+            out_d: Dict[Any, Any] = {}
+            for kv in pairs:
+                if not (isinstance(kv, (tuple, list)) and len(kv) == 2) or is_unknown(kv[0]) or not isinstance(kv[0], (str, int, bytes, bool, type(None))):
+                    return Unknown("dict comprehension key")
+                out_d[kv[0]] = kv[1]
+            return out_d
+        if isinstance(e, ast.DictComp):
             return Unknown("dictcomp")
         if isinstance(e, ast.Lambda):
             return Unknown("lambda")
@@ -724,7 +734,12 @@ class Folder:
         if isinstance(st, ast.Return):
             raise _Return(self.expr(st.value, env, m) if st.value is not None else None)
         if isinstance(st, ast.Raise):
-            raise FoldRaise(self.expr(st.exc, env, m) if st.exc is not None else None)
+            fr = FoldRaise(self.expr(st.exc, env, m) if st.exc is not None else None)
+            ex_ = st.exc.func if isinstance(st.exc, ast.Call) else st.exc
+            fr.name = norm(ex_).split(".")[-1] if ex_ is not None else ""
+            if st.exc is None:
+                fr.exc = None  # the class as written (builtin exception classes do not fold to a value)
+            raise fr
         if isinstance(st, (ast.Pass, ast.Import, ast.ImportFrom, ast.Global, ast.Nonlocal)):
             if isinstance(st, ast.Import):
                 for a in st.names:
@@ -753,11 +768,72 @@ class Folder:
             return
         if isinstance(st, ast.Try):
             try:
-                self.block(st.body, env, m)
-            except FoldRaise:
-                self._poison(st, env, m)
+                try:
+                    self.block(st.body, env, m)
+                except FoldRaise as fr:
+                    h = self._match_handler(st, fr, env, m)
+                    if h is None:
+                        raise  # no handler of this statement catches it
+                    if h == "unknown":
+                        self._poison(st, env, m)
+                        return
+                    if h.name:
+                        env[h.name] = fr.exc if fr.exc is not None else Unknown("exception")
+                    try:
+                        self.block(h.body, env, m)
+                    except FoldRaise as fr2:
+                        if fr2.exc is None and getattr(fr2, "name", "") == "":
+                            raise fr  # bare `raise`
+                        raise
+                else:
+                    self.block(st.orelse, env, m)
+            finally:
+                if st.finalbody:
+                    self.block(st.finalbody, env, m)
             return
         self._poison(st, env, m)
+
+    def _match_handler(self, st: ast.Try, fr: "FoldRaise", env: Dict[str, Any], m: Module):
+        """the first handler of `st` that catches the folded raise: the handler, None (none catches it), or "unknown" (class relation not decidable)"""
+        import builtins as _b
+        rname = getattr(fr, "name", "") or ""
+        rinst = fr.exc if isinstance(fr.exc, Inst) else None
+
+        def builtin_exc(nm: str):
+            c = getattr(_b, nm, None)
+            return c if isinstance(c, type) and issubclass(c, BaseException) else None
+
+        def catches(te: ast.expr):
+            tv = self.expr(te, env, m)
+            if isinstance(tv, ClassVal):
+                if rinst is not None:
+                    return tv.cls in rinst.cls.mro
+                return False if builtin_exc(rname) is not None else None
+            hn = norm(te).split(".")[-1]
+            hb = builtin_exc(hn)
+            if hb is None:
+                return None
+            if rinst is not None:
+                for c in rinst.cls.mro:
+                    for eb in c.ext_bases:
+                        eb_c = builtin_exc(eb.split(".")[-1])
+                        if eb_c is not None and issubclass(eb_c, hb):
+                            return True
+                return hb in (Exception, BaseException)
+            rb = builtin_exc(rname)
+            if rb is None:
+                return None
+            return issubclass(rb, hb)
+        for h in st.handlers:
+            if h.type is None:
+                return h
+            tes = h.type.elts if isinstance(h.type, ast.Tuple) else [h.type]
+            rs = [catches(te) for te in tes]
+            if any(r is True for r in rs):
+                return h
+            if any(r is None for r in rs):
+                return "unknown"
+        return None
 
     def _poison(self, st: ast.AST, env: Dict[str, Any], m: Module) -> None:
         for n in ast.walk(st):
